@@ -332,6 +332,9 @@ def gen_cases(rnd, tier):
         [("connected",), ("open", 1, "a"), ("ctrl", 2, "a", 3), ("open", 1, "b"), ("ctrl", 2, "b", 0), ("open", 3, "c"), ("ctrl", 4, "c", 0)],
         [("connected",), ("ctrl", 1, 8, 0), ("closing",), ("ctrl", 5, 9, 0), ("ctrl", 1, 10, 0), ("ctrl", 3, 11, 0), ("closed",), ("connected",), ("ctrl", 5, 12, 0)],
         [("connected",), ("ctrl", 1, 8, 0), ("open", 5, "a"), ("data", "a", 1, 2, False, True), ("open", 5, "b"), ("giveup", "b"), ("ctrl", 6, "b", 0)],
+        # a response of ANOTHER type under the system bytes of an open control request: no effect, the request stays open
+        [("connected",), ("open", 5, "a"), ("ctrl", 2, "a", 0), ("data", 9, 1, 1, True, True), ("ctrl", 4, "a", 0), ("ctrl", 6, "a", 0), ("ctrl", 1, 8, 0), ("open", 5, "b"), ("ctrl", 4, "b", 0),
+         ("data", 10, 1, 1, True, True), ("open", 3, "c"), ("ctrl", 6, "c", 0), ("ctrl", 2, "c", 0), ("ctrl", 4, "c", 0), ("ctrl", 6, "b", 0)],
         # a primary of the peer (W-bit) that carries the system bytes of one of our open transactions is delivered, the transaction stays open
         [("connected",), ("ctrl", 1, 8, 0), ("open", 5, "a"), ("data", "a", 1, 1, True, True), ("data", "a", 2, 17, True, True), ("ctrl", 6, "a", 0), ("data", "a", 1, 1, True, True)],
         # Reject.req for an open transaction and for none; Linktest.rsp for an open Select.req
